@@ -1010,6 +1010,10 @@ func (x *Exec) builtin(fr *Frame, b *ssa.Builtin, c *ssa.CallCommon, args []Valu
 			return VInt{mkConst(64, 0)} // chan
 		case VArray:
 			return VInt{mkConst(64, uint64(len(v.e)))}
+		case nil:
+			// undefined operand: only on a path whose guard is unsatisfiable (see callFunction)
+			x.warnings["len of an undefined value (infeasible path)"]++
+			return VInt{mkConst(64, 0)}
 		}
 	case "cap":
 		switch v := args[0].(type) {
